@@ -182,7 +182,7 @@ CLAIMED = {
          "fair all-pairs cycles until quiescence; oracle: within 30 cycles nobody is busy and everything accepted is committed by all (measured: 1-7 cycles)",
          "partial: runtime behaviour not exhibited by the model: timers, goroutine scheduling, random peer selection; the convergence bound is exploration only",
          "Coq lemmas on the logic + controlled-schedule exploration with a deterministic fair suffix"),
- "C13": ("PARTIAL. The reset path is in the Coq model (Model/HgReset.v: Hashgraph.Reset, InmemStore.Reset, InsertFrameEvent, SortedFrameEvents, core.fastForward after "
+ "C13": ("The reset path is in the Coq model (Model/HgReset.v: Hashgraph.Reset, InmemStore.Reset, InsertFrameEvent, SortedFrameEvents, core.fastForward after "
          "checkFastForward, node.fastForward's receipts). Proved, for EVERY victim state / block / frame with distinct non-negative event ids and a sorted table: the state "
          "left by a fast-forward (block store = the anchor, frame cache = the frame, table = the frame's table, validators = its latest set, lower bound = last consensus "
          "round = the block's round-received, empty queues; DAG = exactly the root and frame events with the recorded round / Lamport / witness flag in events, memo tables "
@@ -207,8 +207,7 @@ CLAIMED = {
          "theorem C02_rr_increasing) the set of round r >= 0 is genesis modified in block order by exactly the accepted receipts of the delivered blocks with "
          "rr+6 <= r (C10_lookup_is_effective_prefix), and the 'round already recorded' branch of SetPeerSet is dead for delivered blocks. Tied to the code by per-action comparison of the table (observable ps) of real cores in dynamic-membership gossip "
          "histories and by an independent replay oracle on the implementation (table, lookup, PeersHash)",
-         "17 theorems, no axioms, no full statement left as a Definition; membership gates proved per call (witness, strongly-see), not yet as invariants of the memo tables (window property, "
-         "DESIGN stage D); fast-forwarded nodes start from the frame's table (C13)",
+         "27 theorems, no axioms; the WINDOW property (the set of round r is final when round r is computed) is REFUTED (C10_window_refuted; open known finding C10-window, replayed on real cores every run; the runner evaluates the window and the distance bound on every insertion of every history); under the locally checkable distance bound every lookup is final (C10_gap_lookup_final) and every memoised round / witness flag satisfies its equation read with the FINAL table (C10_round_gate_dynamic, C10_witness_gate_dynamic)",
          "Coq invariant proof over operation lists (commit footprint + generic lifting) + dynamic-membership gossip correspondence + replay oracle"),
  "C09": ("Proved in Coq for every operation sequence and every signature payload (other bodies, non-members, removed / not yet effective validators, "
          "duplicates, unknown or future indexes, encodings that verify against nothing): a signature is recorded on a block only if it verifies against the "
